@@ -46,6 +46,21 @@ var dbOwners = []util.EFIGUID{
 // owner with GUIDs that differ from it in one field only.
 var dbOwnerSets = [][3]int{{0, 1, 2}, {0, 3, 4}, {0, 5, 6}, {0, 7, 1}, {3, 0, 4}}
 
+// dbReadBuffer is the caller's read buffer: certificates in PEM form arrive in it, one after the other, at the same
+// address (the library decodes PEM into memory of its own, so it never keeps this buffer; raw data it keeps, which is
+// why only PEM input goes through here).
+var dbReadBuffer = make([]byte, 16384)
+
+func dbCallerData(t, d int) []byte {
+	data := dbData(d)
+	if dbIsPEM(t, d) && len(data) <= len(dbReadBuffer) {
+		buf := dbReadBuffer[:len(data)]
+		copy(buf, data)
+		return buf
+	}
+	return append([]byte(nil), data...)
+}
+
 // dbOwnerSet is the set of the run that is executing (one run at a time per worker process).
 var dbOwnerSet = 0
 
@@ -500,9 +515,9 @@ func buildList(x *X, i int, kind string, spec dbListSpec) (*signature.SignatureL
 		how := "AppendBytes"
 		if (it.O+it.D+len(l.Signatures))%2 == 1 {
 			how = "AppendSignature"
-			err = l.AppendSignature(signature.SignatureData{Owner: dbOwner(it.O), Data: append([]byte(nil), data...)})
+			err = l.AppendSignature(signature.SignatureData{Owner: dbOwner(it.O), Data: dbCallerData(spec.T, it.D)})
 		} else {
-			err = l.AppendBytes(dbOwner(it.O), append([]byte(nil), data...))
+			err = l.AppendBytes(dbOwner(it.O), dbCallerData(spec.T, it.D))
 		}
 		x.Logf("   list.%s(%s, o%d, d%d) -> %v", how, typeSig(spec.T), it.O, it.D, err)
 		sig := map[string]string{"level": "list", "type": typeSig(spec.T), "dup": fmt.Sprint(dup), "wrong_size": fmt.Sprint(wrongSize), "pem": fmt.Sprint(dbIsPEM(spec.T, it.D))}
@@ -733,7 +748,7 @@ func (e *dbhistEngine) Exec(tr *Trace, x *X) {
 			switch op.Op {
 			case "Append", "AppendSignature":
 				tg, og := dbTypes[op.T].G, dbOwner(op.O)
-				data := append([]byte(nil), dbData(op.D)...)
+				data := dbCallerData(op.T, op.D)
 				stored := dbNorm(op.T, op.D)
 				e := entryOf(op.T, op.O, stored)
 				dup := viewHas(before, e)
@@ -794,7 +809,7 @@ func (e *dbhistEngine) Exec(tr *Trace, x *X) {
 				mut++
 			case "Remove", "RemoveSignature":
 				tg, og := dbTypes[op.T].G, dbOwner(op.O)
-				data := append([]byte(nil), dbData(op.D)...)
+				data := dbCallerData(op.T, op.D)
 				e := entryOf(op.T, op.O, data)
 				present := viewHas(before, e)
 				eDER := entryOf(op.T, op.O, dbNorm(op.T, op.D))
@@ -844,7 +859,7 @@ func (e *dbhistEngine) Exec(tr *Trace, x *X) {
 				mut++
 			case "BytesExists", "SigDataExists":
 				tg, og := dbTypes[op.T].G, dbOwner(op.O)
-				data := append([]byte(nil), dbData(op.D)...)
+				data := dbCallerData(op.T, op.D)
 				want := viewHas(before, entryOf(op.T, op.O, data))
 				ambig := dbIsPEM(op.T, op.D) && viewHas(before, entryOf(op.T, op.O, dbNorm(op.T, op.D)))
 				var got bool
